@@ -159,6 +159,24 @@ def shared_mutable_state(m, modules):
             if tgt and _is_mutable_display(val):
                 glob[tgt] = st
         if glob:
+            # ... or handed out by a function: whoever fills the returned container
+            # fills it for every later caller
+            for _mi, fd in m.all_functions(modules=[mod]):
+                local = {a.arg for a in ast.walk(fd.args) if isinstance(a, ast.arg)} | {
+                    x.id for x in ast.walk(fd) if isinstance(x, ast.Name)
+                    and isinstance(x.ctx, ast.Store)}
+                for r in ast.walk(fd):
+                    if not (isinstance(r, ast.Return) and r.value is not None):
+                        continue
+                    vals = r.value.elts if isinstance(r.value, ast.Tuple) else [r.value]
+                    for v in vals:
+                        if isinstance(v, ast.Name) and v.id in glob and v.id not in local:
+                            out.append(("global", mi, glob[v.id],
+                                        f"module-level `{v.id} = "
+                                        f"{ast.unparse(glob[v.id].value)[:30]}` returned by "
+                                        f"{m.qualname(fd).replace('pytato.', '', 1)}"))
+                            glob.pop(v.id)
+        if glob:
             for _mi, fd in m.all_functions(modules=[mod]):
                 local = {a.arg for a in ast.walk(fd.args) if isinstance(a, ast.arg)} | {
                     x.id for x in ast.walk(fd) if isinstance(x, ast.Name)
@@ -233,9 +251,9 @@ def check_no_shared_state(c, rule, modules, why, floor_funcs=10):
     from pta.model import AnalysisError, Model
     fm = Model(Path(__file__).resolve().parent.parent / "fixtures" / "state", package="fixpkg")
     got = sorted(k for k, _mi, _n, _d in shared_mutable_state(fm, list(fm.modules)))
-    if got != ["classattr", "default", "global"]:
+    if got != ["classattr", "default", "global", "global"]:
         raise AnalysisError(f"shared-mutable-state canary: expected one default, one class "
-                            f"attribute and one module-level table, flagged {got}")
+                            f"attribute and two module-level tables (one mutated, one returned), flagged {got}")
     mods = [x for x in modules if x in m.modules]
     found = shared_mutable_state(m, mods)
     by_mod = {}
